@@ -7,6 +7,7 @@ use wow_mpq::crypto::{
 };
 use wow_mpq::simd::scalar::hash_string_scalar;
 use wow_mpq::SimdOps;
+use wow_mpq::crypto::file_key;
 use wow_mpq::{calculate_het_hashes, calculate_mpq_hashes, decrypt_file_data, ArchiveBuilder};
 
 fn w(v: u32) -> Value {
@@ -174,6 +175,10 @@ fn main() {
                     // the convenience wrappers of crypto/mod.rs must agree with the primitive hashes
                     let (ha, hb, ho) = calculate_mpq_hashes(&s);
                     let (hf, hn) = calculate_het_hashes(&s, 48);
+                    // crypto::file_key: key of the plain name after the LAST separator of either kind
+                    for nm in [s.clone(), format!("Dir\\Sub/{s}"), format!("Dir/Sub\\{s}"), format!("a/b\\c/{s}"), format!("{s}\\"), format!("{s}/")] {
+                        out.ev(json!({"ev":"FileKey","case":case,"b":nm.as_bytes(),"v":w(file_key(&nm))}));
+                    }
                     out.ev(json!({"ev":"Wrap","case":case,"b":s.as_bytes(),"a":w(ha),"bb":w(hb),"off":w(ho),
                         "bits":48,"file":limbs64(hf),"name1":hn}));
                 }
@@ -221,7 +226,21 @@ fn main() {
                         names.push(String::from_utf8(b.clone()).unwrap());
                     }
                 }
-                // batch one-at-a-time (AVX2 path takes >= 4 names)
+                // batch one-at-a-time (AVX2 path takes >= 4 names; it folds 32-byte chunks vectorised and the
+                // tail bytes separately): lengths around every chunk multiple, separators and upper-case letters
+                // forced into the first chunk, a middle chunk and the tail
+                let mut bnames: Vec<String> = Vec::new();
+                for (j, &l) in [1usize, 5, 31, 32, 33, 34, 40, 63, 64, 65, 66, 95, 96, 97, 100, 129, 200].iter().cycle().take(68).enumerate() {
+                    let mut b: Vec<u8> = (0..l).map(|_| 0x20 + (rng.byte() % 0x5f)).collect();
+                    let marks = [b'/', b'\\', b'Q', b'z'];
+                    for (q, pos) in [0usize, l / 2, l.saturating_sub(1), l.saturating_sub(2)].iter().enumerate() {
+                        if *pos < l && (j + q) % 2 == 0 {
+                            b[*pos] = marks[(j + q) % 4];
+                        }
+                    }
+                    bnames.push(String::from_utf8(b).unwrap());
+                }
+                names.extend(bnames);
                 let refs: Vec<&str> = names.iter().map(|s| s.as_str()).collect();
                 for chunk in refs.chunks(7) {
                     let hs = simd.jenkins_hash_batch(chunk);
@@ -253,6 +272,11 @@ fn main() {
             "het" => {
                 let widths: Vec<u32> = ga(c, "widths").iter().map(|x| x.as_u64().unwrap() as u32).collect();
                 let alphabet: Vec<char> = "abcxyzABCXYZ0189\\/._-() é".chars().collect();
+                for &bits in &widths {
+                    // the empty name: lookup3 returns its initial state without the final mix
+                    let (file, name1) = het_hash("", bits);
+                    out.ev(json!({"ev":"Het","case":case,"b":Vec::<u8>::new(),"bits":bits,"file":limbs64(file),"name1":name1}));
+                }
                 for i in 0..gi(c, "count") {
                     let l = if i < 30 { i as u64 + 1 } else { rng.range(1, 70) };
                     let s: String = (0..l).map(|_| *rng.pick(&alphabet)).collect();
